@@ -32,8 +32,33 @@ static Plan gen_cvbr_long(uint64_t seed, int tier) {
   return p;
 }
 
+// long packets (60-120 ms) at high rates into large buffers: the per-frame budgets of the repacketised path
+static Plan gen_bigframe(uint64_t seed, int tier) {
+  Rng r(seed ^ 0xB16F);
+  Plan p; p.hdr["scenario"] = "ratectl-bigframe";
+  int ch = (int)r.range(1, 2);
+  p.ops.push_back(mkop("ENCNEW", {K_SINGLE, r.range(0, 4), ch, r.range(0, 2), 0, 0, -1, (int64_t)r.range(1, 1 << 30)}));
+  p.ops.push_back(mkop("DECNEW", {r.range(0, 4), r.range(0, 1), -1, r.range(0, 2)}));
+  int vbrmode = r.weighted({3, 3, 2});
+  p.ops.push_back(mkop("CTL", {OPUS_SET_VBR_REQUEST, vbrmode == 0 ? 0 : 1}));
+  p.ops.push_back(mkop("CTL", {OPUS_SET_VBR_CONSTRAINT_REQUEST, vbrmode == 1 ? 1 : 0}));
+  p.ops.push_back(mkop("CTL", {OPUS_SET_BITRATE_REQUEST, r.chance(0.15) ? OPUS_BITRATE_MAX : (int)r.pick({96000, 128000, 160000, 180000, 200000, 256000, 300000, 400000, 510000, (int)r.range(64000, 600000)})}));
+  if (r.chance(0.5)) p.ops.push_back(mkop("CTL", {11002, r.pick({1000, 1000, 1001, 1002})}));
+  if (r.chance(0.4)) { p.ops.push_back(mkop("CTL", {OPUS_SET_DTX_REQUEST, 1})); p.ops.push_back(mkop("CTL", {OPUS_SET_COMPLEXITY_REQUEST, r.range(0, 6)})); }
+  if (r.chance(0.3)) p.ops.push_back(mkop("CTL", {OPUS_SET_MAX_BANDWIDTH_REQUEST, r.pick({1101, 1102, 1103, 1104})}));
+  if (r.chance(0.3)) { p.ops.push_back(mkop("CTL", {OPUS_SET_INBAND_FEC_REQUEST, r.range(1, 2)})); p.ops.push_back(mkop("CTL", {OPUS_SET_PACKET_LOSS_PERC_REQUEST, r.pick({5, 20, 50})})); }
+  p.ops.push_back(mkop("SRC", {r.pick({(int)SRC_NOISE, (int)SRC_NOISE, (int)SRC_MUSIC, (int)SRC_VOICED, (int)SRC_SQUARE, (int)SRC_TONES}), r.pick({110, 440, 3000}), r.pick({150, 300, 900, 1000}), r.range(1, 1000), r.range(200, 900)}));
+  int n = (int)(tier ? r.range(10, 40) : r.range(4, 14));
+  for (int i = 0; i < n; i++) {
+    if (r.chance(0.1)) p.ops.push_back(mkop("CTL", {OPUS_SET_BITRATE_REQUEST, (int)r.range(64000, 600000)}));
+    p.ops.push_back(mkop("ENC", {r.pick({5, 6, 7, 8, 8, 8}), r.pick({4000, 4000, 3828, 3684, 3000, 2600, 2553, 2552, 2000, 1500, 1276}), r.range(0, 2)}));
+  }
+  return p;
+}
+
 static Plan gen(uint64_t seed, int tier) {
   if ((seed >> 8) % 10 == 0 || getenv("OPSIM_C05_LONGONLY")) return gen_cvbr_long(seed, tier);
+  if ((seed >> 8) % 10 == 1) return gen_bigframe(seed, tier);
   Plan p = gen_lockstep(seed, tier, 1);
   // rate-control emphasis: make sure CBR / CVBR and bitrate changes are well represented
   Rng r(seed ^ 0xC05);
